@@ -203,6 +203,17 @@ def run(ctx):
     hist = trees.SharedObjects(ctx, rng, "OpenRangeTransformer", known_params={"tree"}, raw=lambda r, t: r(t))
     for ci, (d, merge, add_head) in enumerate(cases):
         o = common.load_tree(d)
+        if ci % 9 == 4:
+            # node classes an application derives (mixin first), possibly after the library's visitors were first used
+            # (seeded C12-I: one dispatch table per visitor class, built at the first dispatch). Only the comparisons
+            # and the operations are re-classed: the transformer recognises an open side by `bound == Word("*")`, and
+            # equality is by exact class, so a derived word is -- by design -- not the wildcard
+            derived = [x for x in trees.all_nodes(o) if isinstance(x, (I.tree.OpenRange, I.tree.BaseOperation, I.tree.SearchField))]
+            n_sub = 0
+            for x in derived:
+                if rng.random() < 0.6:
+                    n_sub += trees.user_subclasses(x, rng, share=1.0, only_root=True)
+            ctx.count("nodes of user-defined subclasses (mixin first)", n_sub)
         snap = trees.snapshot(o)
         info = {"tree": d, "merge": merge, "add_head": add_head}
         try:
